@@ -154,6 +154,25 @@ def michael (key da sa : Bytes) (prio : UInt8) (data : Bytes) : Bytes :=
   let (l, r) := (List.range (m.length / 4)).foldl (fun lr k => michaelBlock lr (le32Of m (4 * k))) (le32Of key 0, le32Of key 4)
   le32 l.toBitVec ++ le32 r.toBitVec
 
+/-- destination / source address of the MSDU, from the MAC header bytes -/
+def daOf (h : Bytes) : Bytes :=
+  if h.getD 1 0 &&& 1 != 0 then (h.drop 16).take 6 else (h.drop 4).take 6
+def saOf (h : Bytes) : Bytes :=
+  let toDS := h.getD 1 0 &&& 1 != 0
+  let fromDS := h.getD 1 0 &&& 2 != 0
+  if toDS && fromDS then (h.drop 24).take 6 else if fromDS then (h.drop 16).take 6 else (h.drop 10).take 6
+
+/-- Michael verification of a decapsulated TKIP MSDU carried in one MPDU with MAC header `h`: the MIC key is
+    PTK[48..56) for frames from the authenticator (from-DS) and PTK[56..64) for frames from the supplicant (to-DS);
+    for IBSS / 4-address frames the key half is not defined by the pairwise key hierarchy and nothing is demanded -/
+def michaelVerifies (ptk h m mic : Bytes) : Bool :=
+  let toDS := h.getD 1 0 &&& 1 != 0
+  let fromDS := h.getD 1 0 &&& 2 != 0
+  if toDS == fromDS then true else
+  let key := if toDS then (ptk.drop 56).take 8 else (ptk.drop 48).take 8
+  let prio : UInt8 := if h.getD 0 0 &&& 0x80 != 0 then h.getD (if toDS && fromDS then 30 else 24) 0 &&& 0x0f else 0
+  michael key (daOf h) (saOf h) prio m == mic
+
 /-! ### CCMP (11.4.3) over the MAC header bytes `h` (24, 26, 30 or 32 bytes) -/
 
 def hasA4 (h : Bytes) : Bool := h.getD 1 0 &&& 3 = 3
